@@ -233,6 +233,11 @@ class _FunctionFreshness:
             return self.classify(e.value)
         return "Shared"
 
+    def classify_at(self, assign: ast.Assign) -> str:
+        """Class of the value bound by ONE assignment (the other names of its right-hand side by the function-wide join,
+        except the assigned name itself when it occurs there - `x = dict(x)` is fresh whatever x was)."""
+        return self.classify(assign.value)
+
     def classify_elem(self, it: ast.AST) -> str:
         """Class of the ELEMENTS produced by iterating `it`."""
         if isinstance(it, (ast.ListComp, ast.GeneratorExp)):
@@ -257,6 +262,69 @@ class _FunctionFreshness:
         if c == "Owned":
             return "Owned"
         return "Elem"
+
+
+def _dominating_assignment(fn: ast.AST, name: str, use: ast.AST) -> Optional[ast.AST]:
+    """The last assignment `name = <value>` that DOMINATES the statement containing `use`: it stands in a block that encloses
+    the use, before it, and no other binding of `name` (in any branch or loop) lies between the two.  None otherwise."""
+    parents = {}
+    for p_ in ast.walk(fn):
+        for c in ast.iter_child_nodes(p_):
+            parents[id(c)] = p_
+    # chain of statements enclosing the use, innermost first
+    chain = []
+    x = use
+    while x is not None and x is not fn:
+        if isinstance(x, ast.stmt):
+            chain.append(x)
+        x = parents.get(id(x))
+    if not chain:
+        return None
+    use_line = getattr(chain[0], "lineno", 0)
+    blocks = []  # statement lists that contain one of the enclosing statements
+    for st in chain:
+        par = parents.get(id(st))
+        for f in ("body", "orelse", "finalbody"):
+            lst = getattr(par, f, None)
+            if isinstance(lst, list) and any(y is st for y in lst):
+                blocks.append((lst, st))
+        if isinstance(par, ast.ExceptHandler) or isinstance(par, ast.Try):
+            for h in getattr(par, "handlers", []):
+                if any(y is st for y in h.body):
+                    blocks.append((h.body, st))
+    best = None
+    for lst, st in blocks:
+        for y in lst:
+            if y is st:
+                break
+            if isinstance(y, ast.Assign) and len(y.targets) == 1 and isinstance(y.targets[0], ast.Name) and y.targets[0].id == name:
+                if best is None or y.lineno > best.lineno:
+                    best = y
+    if best is None:
+        return None
+    # any other binding of the name between the candidate and the use (a branch, a loop target, an augmented assignment)?
+    for n in ast.walk(fn):
+        ln = getattr(n, "lineno", None)
+        if ln is None or not (best.lineno < ln < use_line or (ln == best.lineno and n is not best and isinstance(n, ast.Assign))):
+            continue
+        binds = []
+        if isinstance(n, ast.Assign):
+            binds = [t for t0 in n.targets for t in (t0.elts if isinstance(t0, (ast.Tuple, ast.List)) else [t0])]
+        elif isinstance(n, (ast.AugAssign, ast.AnnAssign)):
+            binds = [n.target]
+        elif isinstance(n, (ast.For, ast.comprehension)):
+            binds = list(ast.walk(n.target))
+        elif isinstance(n, ast.With):
+            binds = [i.optional_vars for i in n.items if i.optional_vars is not None]
+        if any(isinstance(t, ast.Name) and t.id == name for t in binds) and n is not best:
+            return None
+    # loops: a use inside a loop whose body re-binds the name AFTER the use is reached again with that binding
+    for st in chain:
+        if isinstance(st, (ast.For, ast.While)) and best.lineno < st.lineno:
+            for n in ast.walk(st):
+                if isinstance(n, ast.Assign) and any(isinstance(t, ast.Name) and t.id == name for t in n.targets) and n is not best:
+                    return None
+    return best
 
 
 def _literal_loop_values(fn: ast.AST, name: str) -> Optional[List[str]]:
@@ -394,6 +462,12 @@ def inventory(repo: Repo) -> List[WriteSite]:
                 cls = "Self" if in_init else "Shared"
             else:
                 cls = fr.classify(r)
+                # a name RE-BOUND before the write (`result = resp["result"]` ... `result = dict(result)` ... `result.update(..)`):
+                # the assignment that dominates the write decides, not the join over all assignments of the function
+                if cls != "Fresh" and isinstance(r, ast.Name):
+                    dom = _dominating_assignment(m.node, r.id, node)
+                    if dom is not None and fr.classify_at(dom) == "Fresh":
+                        cls = "Fresh"
             if cls == "Shared" and isinstance(r, ast.Name) and r.id in m.params and r.id not in fr.env:
                 pc = _param_freshness(repo, m, r.id)
                 if pc is not None:
